@@ -351,6 +351,8 @@ class Unit:
         self.sources = {}
         self.inputs = []       # files read (for cache key)
         self.theorems = []
+        self.stub = set()      # functions to emit as assumed contracts (degraded mode, DESIGN 13.6)
+        self.stubbed = {}      # name -> reason
 
     def read_repo(self, rel):
         p = os.path.join(self.repo, rel)
@@ -369,6 +371,7 @@ class Unit:
         return len(self.out) + 1
 
 
+CLOSURE_RX = re.compile(r'(?:[(,=]\s*|\bmove\s+|\breturn\s+)\|')
 LABEL_RX = re.compile(r'//#\s*([C0-9, ]+?)\s+([\w.\-]+)\s*$')
 
 
@@ -626,6 +629,15 @@ def process_fn(unit, lines, i, arg, rel_tpl):
         prefix += ' let mut %s = %s;' % (mm.group(2), mm.group(2))
         st['R2_mut_param'] = st.get('R2_mut_param', 0) + 1
     sig = re.sub(r'([(,]\s*)mut\s+(?!self\b)(\w+)\s*:', r'\1\2:', sig)
+    # R15: `_x: T` parameters are named `x` (the leading underscore only silences a lint): contracts keep speaking about `x` when a
+    # change stops using a parameter and underscores it
+    for mm in list(re.finditer(r'[(,]\s*(?:mut\s+)?_([A-Za-z]\w*)\s*:', sig)):
+        bare = mm.group(1)
+        if re.search(r'(?<![\w])' + bare + r'(?![\w])', sig) or re.search(r'(?<![\w])' + bare + r'(?![\w])', body):
+            continue
+        sig = tokens_rename(sig, {'_' + bare: bare}, {})
+        body = tokens_rename(body, {'_' + bare: bare}, {})
+        st['R15_underscore_param'] = st.get('R15_underscore_param', 0) + 1
     # R14: anonymous `_: T` parameters get a name (the verus! macro wants an identifier; the value is unused either way)
     sig, n_anon = re.subn(r'([(,]\s*)_\s*:', r'\1_anon:', sig)
     if n_anon:
@@ -635,58 +647,73 @@ def process_fn(unit, lines, i, arg, rel_tpl):
     sig = re.sub(r'^(\s*)pub\(crate\)\s+', r'\1pub ', sig)
     sig = tokens_rename(sig, renames, st)
     body = tokens_rename(body, renames, st)
-    for old, new in suball:
-        rx = r'\s*'.join(re.escape(ch) for ch in old if not ch.isspace())
-        if old[:1].isalnum() or old[:1] == '_':
-            rx = r'(?<![\w])' + rx
-        body, cnt = re.subn(rx, lambda m_: new, body)
-        if cnt < 1:
-            raise AssembleError('fn %s: //@suball anchor %r matched 0 times' % (name, old))
-        st['Rsub_declared'] = st.get('Rsub_declared', 0) + cnt
-    for old, new in subs:
-        # whitespace-insensitive, must match exactly once
-        rx = r'\s*'.join(re.escape(ch) for ch in old if not ch.isspace())
-        ms = list(re.finditer(rx, body))
-        if len(ms) != 1:
-            raise AssembleError('fn %s: //@sub anchor %r matched %d times' % (name, old, len(ms)))
-        body = body[:ms[0].start()] + new + body[ms[0].end():]
-        st['Rsub_declared'] = st.get('Rsub_declared', 0) + 1
-    body = rewrite_body(body, 'total' if total else mode, st)
+    stub_reason = None
+    inserts = []
+    if (newname or name) in unit.stub:
+        stub_reason = 'front end rejected the extracted body'
+    else:
+      try:
+          for old, new in suball:
+              rx = r'\s*'.join(re.escape(ch) for ch in old if not ch.isspace())
+              if old[:1].isalnum() or old[:1] == '_':
+                  rx = r'(?<![\w])' + rx
+              body, cnt = re.subn(rx, lambda m_: new, body)
+              if cnt < 1:
+                  raise AssembleError('fn %s: //@suball anchor %r matched 0 times' % (name, old))
+              st['Rsub_declared'] = st.get('Rsub_declared', 0) + cnt
+          for old, new in subs:
+              # whitespace-insensitive, must match exactly once
+              rx = r'\s*'.join(re.escape(ch) for ch in old if not ch.isspace())
+              ms = list(re.finditer(rx, body))
+              if len(ms) != 1:
+                  raise AssembleError('fn %s: //@sub anchor %r matched %d times' % (name, old, len(ms)))
+              body = body[:ms[0].start()] + new + body[ms[0].end():]
+              st['Rsub_declared'] = st.get('Rsub_declared', 0) + 1
+          body = rewrite_body(body, 'total' if total else mode, st)
+          # a closure's result is opaque to the verifier (no inferred ensures): a proof through one fails for no semantic reason, so a
+          # body that still holds one after the declared rewrites is outside the subset (degraded mode), never a violation
+          if CLOSURE_RX.search(strip_comments(body)):
+              raise AssembleError('fn %s: closure in the body (its result is opaque to the verifier)' % name)
 
-    # splice loops / after / atstart
-    inserts = []  # (offset in body, text, origin)
-    for kind, key, sl in sections[1:]:
-        text = '\n'.join(l for l, _ in sl)
-        origin = '%s:%d' % (rel_tpl, sl[0][1] if sl else j)
-        if kind == 'loop':
-            loops = find_loops(body)
-            if key >= len(loops):
-                raise AssembleError('fn %s: loop %d not found (%d loops)' % (name, key, len(loops)))
-            inserts.append((loops[key][1], '\n' + text + '\n', origin, sl))
-            st['R4_loop_spec'] = st.get('R4_loop_spec', 0) + 1
-        elif kind == 'after':
-            kth, stmt = key
-            ns = norm_ws(stmt)
-            # search for statement text with normalized whitespace
-            rx = r'\s+'.join(re.escape(t) for t in ns.split(' '))
-            ms = list(code_positions(body, rx))
-            if kth >= len(ms):
-                raise AssembleError('fn %s: anchor %r occurrence %d not found (%d found)' % (name, stmt, kth, len(ms)))
-            inserts.append((ms[kth].end(), '\n' + text + '\n', origin, sl))
-            st['R5_proof_hint'] = st.get('R5_proof_hint', 0) + 1
-        elif kind == 'atstart':
-            inserts.append((1, '\n' + text + '\n', origin, sl))
-            st['R5_proof_hint'] = st.get('R5_proof_hint', 0) + 1
-        elif kind == 'atend':
-            inserts.append((len(body) - 1, '\n' + text + '\n', origin, sl))
-            st['R5_proof_hint'] = st.get('R5_proof_hint', 0) + 1
-    if prefix:
-        inserts.append((1, prefix, 'R2', []))
+          # splice loops / after / atstart
+          inserts = []  # (offset in body, text, origin)
+          for kind, key, sl in sections[1:]:
+              text = '\n'.join(l for l, _ in sl)
+              origin = '%s:%d' % (rel_tpl, sl[0][1] if sl else j)
+              if kind == 'loop':
+                  loops = find_loops(body)
+                  if key >= len(loops):
+                      raise AssembleError('fn %s: loop %d not found (%d loops)' % (name, key, len(loops)))
+                  inserts.append((loops[key][1], '\n' + text + '\n', origin, sl))
+                  st['R4_loop_spec'] = st.get('R4_loop_spec', 0) + 1
+              elif kind == 'after':
+                  kth, stmt = key
+                  ns = norm_ws(stmt)
+                  # search for statement text with normalized whitespace
+                  rx = r'\s+'.join(re.escape(t) for t in ns.split(' '))
+                  ms = list(code_positions(body, rx))
+                  if kth >= len(ms):
+                      raise AssembleError('fn %s: anchor %r occurrence %d not found (%d found)' % (name, stmt, kth, len(ms)))
+                  inserts.append((ms[kth].end(), '\n' + text + '\n', origin, sl))
+                  st['R5_proof_hint'] = st.get('R5_proof_hint', 0) + 1
+              elif kind == 'atstart':
+                  inserts.append((1, '\n' + text + '\n', origin, sl))
+                  st['R5_proof_hint'] = st.get('R5_proof_hint', 0) + 1
+              elif kind == 'atend':
+                  inserts.append((len(body) - 1, '\n' + text + '\n', origin, sl))
+                  st['R5_proof_hint'] = st.get('R5_proof_hint', 0) + 1
+          if prefix:
+              inserts.append((1, prefix, 'R2', []))
 
+      except AssembleError as e_:
+        stub_reason = str(e_)
     fn_rec = {'name': newname or name, 'impl': impl_hdr, 'file': rel, 'line': src_line, 'out_start': unit.cur_line(),
               'props': [], 'labels': [], 'mode': 'total' if total else mode, 'spec': '%s:%d' % (rel_tpl, i + 1)}
-    for at in attrs:
-        unit.emit(at, rel_tpl)
+    if stub_reason:
+        unit.emit('#[verifier::external_body] /*DEGRADED*/', rel_tpl)
+    else:
+        for at in attrs:
+            unit.emit(at, rel_tpl)
     fn_rec['out_start'] = unit.cur_line()
     unit.emit(sig, '%s:%d' % (rel, src_line))
     for l, lno in sections[0][2]:
@@ -700,6 +727,15 @@ def process_fn(unit, lines, i, arg, rel_tpl):
                 if p not in fn_rec['props']:
                     fn_rec['props'].append(p)
         unit.emit(l, '%s:%d' % (rel_tpl, lno))
+    if stub_reason:
+        # degraded mode: this function is outside the verifiable subset on this tree; its contract is ASSUMED for its callers and
+        # every clause of it is reported undecided (never discharged, never a violation)
+        unit.emit('{ unimplemented!() }', '%s:%d' % (rel, src_line))
+        fn_rec['out_end'] = unit.cur_line() - 1
+        fn_rec['stubbed'] = stub_reason
+        unit.stubbed[fn_rec['name']] = stub_reason
+        unit.functions.append(fn_rec)
+        return j + 1
     # body with inserts, emitted piecewise to keep origins
     inserts.sort(key=lambda t: t[0])
     pos = 0
@@ -730,10 +766,11 @@ def emit_chunk(unit, chunk, rel, src, src_off):
         unit.out.append((ln, '%s:%d' % (rel, base + k)))
 
 
-def assemble(unit_name, repo='/repo', mode='partial', outdir=None):
+def assemble(unit_name, repo='/repo', mode='partial', outdir=None, stub=None):
     outdir = outdir or os.path.join(VERIF, 'build')
     os.makedirs(outdir, exist_ok=True)
     unit = Unit(unit_name, repo, mode)
+    unit.stub = set(stub or [])
     tpl = os.path.join(VERIF, 'specs', unit_name + '.vrs')
     header = ('#![allow(unused_imports, dead_code, unused_variables, unused_mut, unused_assignments, non_snake_case, unreachable_code, unused_parens, non_upper_case_globals)]\n'
               '#![verifier::allow(autoderive_clone_without_spec)]\n'
@@ -759,7 +796,7 @@ def assemble(unit_name, repo='/repo', mode='partial', outdir=None):
     h.update(mode.encode())
     meta = {'unit': unit_name, 'mode': mode, 'file': out_rs, 'origins': [o for _, o in unit.out],
             'functions': unit.functions, 'labels': unit.labels, 'theorems': unit.theorems,
-            'extraction': unit.stats, 'inputs': sorted(set(unit.inputs)), 'hash': h.hexdigest()}
+            'stubbed': unit.stubbed, 'extraction': unit.stats, 'inputs': sorted(set(unit.inputs)), 'hash': h.hexdigest()}
     with open(os.path.join(outdir, unit_name + suffix + '.map.json'), 'w') as f:
         json.dump(meta, f)
     return meta
